@@ -88,6 +88,14 @@ def build_session(rng, idx, abstract, on, force=None):
             sqls, pos, sp = concretise(rng, st['kinds'], force)
             steps.append({'kind': 'q', 'sql': '; '.join(sqls)})
             meta.append({'m': 'msg', 'proto': 'simple', 'kinds': list(st['kinds']), 'sql': '; '.join(sqls), 'pos': pos, 'spelling': sp})
+        elif op == 'bind':
+            # Bind of the name the last named Parse used: no Parse, no plugin verdict - and still nothing refused may run
+            steps.append({'kind': 'batch', 'parts': [{'bind_only': 'nm%d' % idx}]})
+            meta.append({'m': 'bind', 'kinds': list(st['kinds'])})
+        elif op == 'batch' and st.get('arg') == 'named':
+            sqls, pos, sp = concretise(rng, st['kinds'], force)
+            steps.append({'kind': 'batch', 'parts': [{'sql': sqls[0], 'name': 'nm%d' % idx, 'run': False}]})
+            meta.append({'m': 'msg', 'proto': 'batch', 'kinds': list(st['kinds']), 'sql': sqls[0], 'pos': pos, 'spelling': sp})
         elif op == 'batch':
             sqls, pos, sp = concretise(rng, st['kinds'], force)
             parts = [{'sql': q, 'name': ''} for q in sqls]
@@ -99,7 +107,10 @@ def build_session(rng, idx, abstract, on, force=None):
             steps.append({'kind': 'batch', 'parts': parts, 'flush': flush})
             meta.append({'m': 'msg', 'proto': 'batch_flush' if flush else 'batch', 'kinds': list(st['kinds']), 'sql': ' | '.join(sqls),
                          'pos': pos, 'spelling': sp})
-    return {'id': idx, 'cfg': plugin_cfg(on), 'steps': steps, 'meta': meta, 'abstract': abstract, 'on': on}
+    cfg = plugin_cfg(on)
+    if any(st['op'] == 'bind' or st.get('arg') == 'named' for st in abstract):
+        cfg['prepared_statements_cache_size'] = 10
+    return {'id': idx, 'cfg': cfg, 'steps': steps, 'meta': meta, 'abstract': abstract, 'on': on}
 
 
 def known_verdicts(sessions, results):
@@ -115,7 +126,7 @@ def known_verdicts(sessions, results):
         for st, meta, o in zip(s['steps'], s['meta'], r['obs']):
             nmsg = 0
             if not in_tx:
-                nmsg = 1 if st['kind'] == 'q' else sum(3 if p.get('run', True) else 1 for p in st['parts']) + (2 if st.get('flush') else 1)
+                nmsg = 1 if st['kind'] == 'q' else sum((2 if p.get('bind_only') else 3 if p.get('run', True) else 1) for p in st['parts']) + (2 if st.get('flush') else 1)
             mine = msgs[mi:mi + nmsg]
             mi += nmsg
             if meta['m'] == 'msg' and not in_tx:
@@ -141,13 +152,20 @@ def build_trace(sessions, results):
         for st, meta, o in zip(s['steps'], s['meta'], r['obs']):
             nmsg = 0
             if not in_tx:
-                nmsg = 1 if st['kind'] == 'q' else sum(3 if p.get('run', True) else 1 for p in st['parts']) + (2 if st.get('flush') else 1)
+                nmsg = 1 if st['kind'] == 'q' else sum((2 if p.get('bind_only') else 3 if p.get('run', True) else 1) for p in st['parts']) + (2 if st.get('flush') else 1)
             mine = msgs[mi:mi + nmsg]
             mi += nmsg
             if meta['m'] == 'set_role':
                 recs.append({'ev': 'set_role', 'arg': meta['arg']})
             elif meta['m'] in ('begin', 'commit'):
                 recs.append({'ev': meta['m']})
+            elif meta['m'] == 'bind':
+                by = o.get('landed_by_serial', {})
+                reached = any(bool(by.get(str(n2)) or by.get(n2)) for n2 in o.get('serials', []) if n2 is not None)
+                recs.append({'ev': 'bind', 'kinds': meta['kinds'], 'reached': reached, 'reply': (o.get('errors') or [''])[0][:80]})
+                if any('does not exist' in e for e in o.get('errors', [])):
+                    # the pooler answers a Bind of a name it does not know with an error and closes the connection
+                    break
             else:
                 verdicts = [v for m in mine for v in m.get('parse', [])]
                 # inside a transaction pgcat parses again in the inner loop; verdicts are not attributed there,
